@@ -9,6 +9,7 @@ import (
 	"crypto/rand"
 	"encoding/hex"
 	"fmt"
+	"math/big"
 	"testing"
 	"testing/synctest"
 	"time"
@@ -506,6 +507,48 @@ func dayString(unix int64) string {
 	return fmt.Sprintf("%04d-%02d-%02d", y, m, d)
 }
 
+var groupOrder, _ = new(big.Int).SetString("7237005577332262213973186563042994240857116359379907606001950938285454250989", 10)
+
+func relatedFactors(alpha [32]byte) map[string][32]byte {
+	le := func(x *big.Int) ([32]byte, bool) {
+		var out [32]byte
+		if x.Sign() < 0 || x.BitLen() > 256 {
+			return out, false
+		}
+		b := x.Bytes()
+		for i := range b {
+			out[len(b)-1-i] = b[i]
+		}
+		return out, true
+	}
+	be := make([]byte, 32)
+	for i := range alpha {
+		be[31-i] = alpha[i]
+	}
+	a := new(big.Int).SetBytes(be)
+	out := map[string][32]byte{}
+	for _, k := range []int64{1, 2, 8, 15} {
+		if v, ok := le(new(big.Int).Add(a, new(big.Int).Mul(big.NewInt(k), groupOrder))); ok && v != alpha {
+			out[fmt.Sprintf("derived-factor-plus-%d-group-orders", k)] = v
+		}
+	}
+	if v, ok := le(new(big.Int).Sub(groupOrder, new(big.Int).Mod(a, groupOrder))); ok && v != alpha {
+		out["negated-derived-factor"] = v
+	}
+	var zero, ones [32]byte
+	for i := range ones {
+		ones[i] = 0xFF
+	}
+	if zero != alpha {
+		out["all-zero-factor"] = zero
+	}
+	out["all-ones-factor"] = ones
+	top := alpha
+	top[31] ^= 0x80
+	out["derived-factor-with-top-bit-flipped"] = top
+	return out
+}
+
 func blind(t *testing.T, o *engine.Outcome, idx int, op *engine.Op) {
 	identSeed, sig := uint64(op.N[0]), int(op.N[1])
 	secret := heldSecret(uint64(op.N[2]), int(op.N[3]))
@@ -617,6 +660,12 @@ func blind(t *testing.T, o *engine.Outcome, idx int, op *engine.Op) {
 		flipped := alpha
 		flipped[0] ^= 1
 		others["derived-factor-with-one-bit-flipped"] = flipped
+		// other 32-byte strings that stand in a simple arithmetic relation to the
+		// derived factor: the same scalar plus multiples of the group order (a
+		// non-canonical encoding — still another factor), its negation, zero, ones
+		for name, v := range relatedFactors(alpha) {
+			others[name] = v
+		}
 		for _, name := range engine.SortedKeys(others) {
 			a := others[name]
 			var ok bool
